@@ -58,7 +58,7 @@ class Gen:
 
     def cname(self):
         while True:
-            w = self.pick(WORDS).capitalize() + self.pick(["", "Vault", "Token", "Lib", "Base", "V2", "Impl"]) + self.pick(["", "", str(self.r.randrange(9))])
+            w = self.pick(WORDS).capitalize() + self.pick(["", "Vault", "Token", "Lib", "Base", "V2", "Impl", "Mock", "Test", "Harness", "Script", "Proxy"]) + self.pick(["", "", str(self.r.randrange(9))])
             if w not in self.used:
                 self.used.add(w)
                 return w
